@@ -30,6 +30,9 @@ struct Corruption {
 enum Expect {
     /// v1 error kind (as printed by Verdict::kind) on bytes / text / auto
     V1(&'static str),
+    /// v1 error kind on the text entry point; the byte entry points (whose window ends inside
+    /// the character) only have to be terminal
+    V1TextKind(&'static str),
     /// v1 error kind on the byte entry points only
     V1BytesOnly(&'static str),
     /// exact v2 error on the v2 entry point; terminal on auto
@@ -102,15 +105,20 @@ fn v1_corruptions(base: &[u8]) -> Vec<Corruption> {
     }
     if !is_unknown && fields.len() == 6 {
         let v4 = line.starts_with(b"PROXY TCP4");
+        // spellings other resolvers accept (inet_aton short / hex / octal / decimal forms, zone
+        // ids, brackets, prefix lengths, ports) are part of the dictionary
         let bad_addr: Vec<&str> = if v4 {
             vec![
                 "", "x", "1.2.3", "1.2.3.4.5", "256.1.1.1", "1.2.3.04", "::1", "1..2.3",
                 "1.2.3.4.", ".1.2.3.4", "1.2.3.-4", "0x1.2.3.4", "1.2.3.4/8", "localhost",
+                "127.1", "2130706433", "0177.0.0.1", "0x7f000001", "::ffff:1.2.3.4", "1.2.3.4:80",
+                "+1.2.3.4", "1.2.3.4%1",
             ]
         } else {
             vec![
                 "", "x", "1.2.3.4", ":::", "1::2::3", "g::1", "1:2:3:4:5:6:7", "1:2:3:4:5:6:7:8:9",
-                "00001::", ":1", "1:", "::1%eth0", "[::1]", "1.2.3.4::",
+                "00001::", ":1", "1:", "::1%eth0", "[::1]", "1.2.3.4::", "fe80::1%eth0", "fe80::1%1",
+                "FE80::2%lo0", "fe80::1%25eth0", "::1/128", "[::1]:80", "::ffff:1.2.3.256", "::1.2.3",
             ]
         };
         for (fi, name, kind) in [
@@ -156,6 +164,29 @@ fn v1_corruptions(base: &[u8]) -> Vec<Corruption> {
             format!("byte after CR -> {:#04x}", b),
             replace(base, n - 1, n, &[b]),
             Expect::V1("InvalidSuffix"),
+        );
+    }
+    // ... also with application data behind it, so that the whole input exceeds 107 bytes
+    for b in [b'X', b'\r', 0u8, b' '] {
+        let mut s = replace(base, n - 1, n, &[b]);
+        s.extend(std::iter::repeat(b'z').take(120));
+        s.extend_from_slice(b"\r\n");
+        push(
+            "byte_after_cr",
+            format!("byte after CR -> {:#04x}, then 122 bytes of data", b),
+            s,
+            Expect::V1("InvalidSuffix"),
+        );
+    }
+    // ... and a multi-byte character in place of the LF (alone, and followed by data)
+    for (m, tail) in [("\u{e9}", 0usize), ("\u{20ac}", 0), ("\u{1f600}", 0), ("\u{e9}", 120), ("\u{20ac}", 200)] {
+        let mut s = replace(base, n - 1, n, m.as_bytes());
+        s.extend(std::iter::repeat(b'z').take(tail));
+        push(
+            "byte_after_cr",
+            format!("byte after CR -> {:?}, then {} bytes of data", m, tail),
+            s,
+            Expect::V1TextKind("InvalidSuffix"),
         );
     }
     if is_unknown {
@@ -495,6 +526,13 @@ impl Check for C12 {
                                 fail = Some(("wrong_element_blamed", kind.clone()));
                             }
                         }
+                        (Expect::V1TextKind(k), Entry::V1Text) => {
+                            if kind != *k {
+                                fail = Some(("wrong_element_blamed", kind.clone()));
+                            }
+                        }
+                        // the byte window ends inside the character: terminal is all that is asked
+                        (Expect::V1TextKind(_), _) => {}
                         (Expect::V2(want), Entry::V2) => {
                             if e2.as_ref() != Some(want) {
                                 fail = Some(("wrong_element_blamed", kind.clone()));
@@ -519,7 +557,7 @@ impl Check for C12 {
                             got,
                             c.element,
                             match &c.expect {
-                                Expect::V1(k) | Expect::V1BytesOnly(k) => k.to_string(),
+                                Expect::V1(k) | Expect::V1BytesOnly(k) | Expect::V1TextKind(k) => k.to_string(),
                                 Expect::V2(e) => format!("{:?}", e),
                             }
                         ),
